@@ -12,7 +12,7 @@ CHECKS = {
             'All reachable model states (cell x origin x reciprocal-cache flag) of one live Box under 5 parameter sets x 3 call forms; '
             'every transition is checked against an independent Cholesky/Gram reference. Right level: the property is anchored in '
             'mutable cached state (vects/origin/reciprocal cache).', '2 C01',
-            'cell menu of 19-22 cells (incl. two 1e-6 near-duplicates) and 3 origins; tolerance 1e-8 relative; numpy linear algebra trusted as oracle'),
+            'cell menu of 22-25 cells (incl. two 1e-6 near-duplicates and three single-right-angle cells) and 3 origins; tolerance 1e-8 relative; numpy linear algebra trusted as oracle'),
     'C02': (EX, 'bounded-exhaustive enumeration (every element of cells x 8 pbc x point pairs x call shapes executed on the real dvect/dmag/displacement) against an exhaustive lattice-search oracle',
             'Every pair of a point lattice (faces, edges, corners, interior) in 8 cells under all 8 periodicity settings and all broadcast shapes is executed; '
             'membership in the 27-candidate set, minimality, dmag=|dvect| and the true-nearest-image clause (lattice search with proven radius) are checked on each. '
